@@ -78,6 +78,7 @@ RULE = ('valid (signature, value) pairs (13 basic codes incl. h, variants, array
 RECURSION_ROOM = 1000
 GREY = 80
 ALARM_S = 60.0
+SLICE_FACTOR = 8            # sliced bytes allowed per input byte (on /repo: <= 2: the three message slices + the strings)
 MEMORY_ROOM = 768 << 20      # address space a single decode may add (bytes) before MemoryError
 
 
@@ -112,6 +113,21 @@ def piece_cost(rest_len, piece):
     return cost
 
 
+SLICED = [0]
+
+
+class CountingBytes(bytes):
+    """The message as the decoder gets it: bytes that record how many bytes are copied out of them by slicing (slices
+    of slices included).  struct.unpack_from and codecs.decode take it like any bytes object."""
+
+    def __getitem__(self, key):
+        r = bytes.__getitem__(self, key)
+        if isinstance(key, slice):
+            SLICED[0] += len(r)
+            return CountingBytes(r)
+        return r
+
+
 class Counter:
     """Counts invocations of the entries of marshal.unmarshallers (`n`), and `work` = the mirror of Cost's `work`:
     per invocation 1 + len(ct) + the data bytes a string / signature / variant-signature read slices (computed from
@@ -125,6 +141,8 @@ class Counter:
         self.saved = None
         self.saved_gen = None
         self.in_gen = False
+        self.nested = 0         # nested genCompleteTypes generators created (one per leading 'a' on correct code)
+        self.L = 255            # longest signature in play for the current case
 
     def install(self):
         self.saved = dict(self.marshal.unmarshallers)
@@ -154,6 +172,12 @@ class Counter:
 
         def gen(sig):
             if me.in_gen:                 # the nested generator of a leading 'a': its cost is part of the piece's
+                # correct code creates one per leading 'a' of the piece being produced, and every piece produced is
+                # followed by an invocation: anything beyond (invocations + 2) * (L + 1) is a splitter running away
+                me.nested += 1
+                if me.budget is not None and me.nested > (me.n + 2) * (me.L + 1):
+                    me.reason = 'splitter'
+                    raise BudgetExceeded()
                 return orig(sig)
 
             def pieces():
@@ -231,6 +255,9 @@ def guarded(counter, budget, fn):
     counter.n = 0
     counter.work = 0
     counter.in_gen = False
+    counter.nested = 0
+    counter.reason = None
+    SLICED[0] = 0
     counter.budget = budget
     old_limit = sys.getrecursionlimit()
     old_handler = signal.signal(signal.SIGALRM, _on_alarm)
@@ -261,7 +288,8 @@ def guarded(counter, budget, fn):
         signal.signal(signal.SIGALRM, old_handler)
         sys.setrecursionlimit(old_limit)
         counter.budget = None
-    return {'status': st, 'steps': counter.n, 'work': counter.work, 'value': v, 'cpu': time.process_time() - t0}
+    return {'status': st, 'steps': counter.n, 'work': counter.work, 'value': v, 'cpu': time.process_time() - t0,
+            'sliced': SLICED[0], 'nested': counter.nested, 'reason': counter.reason}
 
 
 # ------------------------------------------------------------------ encoding of cases for the driver
@@ -852,12 +880,18 @@ class Runner:
         fds = c.get('fds', [])
         if fds is not None:
             fds = list(fds)         # a fresh list per decode: the decoder must not be able to grow the case itself
+        data = CountingBytes(c['data'])
         if c['op'] == 'u':
-            fn = lambda: self.marshal.unmarshal(c['sig'], c['data'], c['off'], c['le'], fds)
+            self.counter.L = max(255, len(c['sig']))
+            fn = lambda: self.marshal.unmarshal(c['sig'], data, c['off'], c['le'], fds)
         else:
-            fn = lambda: self.message.parseMessage(c['data'], fds)
+            self.counter.L = 255
+            fn = lambda: self.message.parseMessage(data, fds)
         r = guarded(self.counter, bound + 1, fn)
-        obs = {'status': r['status'], 'steps': r['steps'], 'bound': bound, 'work': r['work'], 'cpu': r['cpu']}
+        obs = {'status': r['status'], 'steps': r['steps'], 'bound': bound, 'work': r['work'], 'cpu': r['cpu'],
+               'sliced': r['sliced']}
+        if r['reason'] == 'splitter':
+            obs['splitter_generators'] = r['nested']
         if r['status'] == 'ok':
             v = r['value']
             if c['op'] == 'u':
@@ -880,6 +914,7 @@ class Runner:
         ctx.stat('outcome=' + (st if not st.startswith('err:') else st))
         ctx.stat('len<=%d' % next(b for b in (0, 8, 32, 128, 512, 4096, 65536, 1 << 40) if len(c['data']) <= b))
         ctx.stat('steps<=%d' % next(b for b in (0, 1, 4, 16, 64, 256, 4096, 65536, 1 << 40) if obs['steps'] <= b))
+        ctx.stat('sliced<=%sx input' % next(b for b in (0, 1, 2, 4, 8, 'more') if b == 'more' or obs['sliced'] <= b * len(c['data'])))
         # ---- S4: the property oracle, implementation only.  Everything is measured against the INPUT SIZE
         # (step_bound / work_bound are linear in len(data) for signatures of bounded length), never against what this
         # implementation happened to do: a decoder that reads an `ay` in one call is as good as one that dispatches per byte.
@@ -889,6 +924,12 @@ class Runner:
             ctx.violation(self.key(c, 'decode-does-not-terminate'),
                           '%s did not finish within %d s on %d bytes' % (what, ALARM_S, nbytes),
                           inp=cj, observed=obs, expected='return or exception within %d invocations' % obs['bound'])
+        elif st == 'BUDGET' and 'splitter_generators' in obs:
+            ctx.violation('signature-split-not-linear',
+                          '%s: genCompleteTypes started %d nested generators after %d unmarshaller invocations '
+                          '(one per leading "a" of a piece is what a linear splitter needs)'
+                          % (what, obs['splitter_generators'], obs['steps']),
+                          inp=cj, observed=obs, expected='at most (invocations + 2) * 256 nested generators')
         elif st == 'BUDGET':
             ctx.violation(self.key(c, 'decode-work-not-linear'),
                           '%s exceeded %d unmarshaller invocations on %d bytes of input'
@@ -914,6 +955,11 @@ class Runner:
                               % (what, obs['nodes'], obs['chars'], nbytes),
                               inp=cj, observed=obs,
                               expected='nodes <= %d (linear in the input size), characters <= bytes' % (obs['bound'] + 1))
+        if st not in ('ALARM', 'BUDGET', 'MEMORY') and obs['sliced'] > SLICE_FACTOR * nbytes + 1024:
+            ctx.violation(self.key(c, 'decode-copies-not-linear'),
+                          '%s copied %d bytes out of a %d-byte input by slicing (x%.1f)'
+                          % (what, obs['sliced'], nbytes, obs['sliced'] / max(nbytes, 1)),
+                          inp=cj, observed=obs, expected='at most %d x the input + 1024 bytes' % SLICE_FACTOR)
         if st not in ('ALARM', 'BUDGET', 'MEMORY') and obs['work'] > work_bound(c):
             ctx.violation(self.key(c, 'decode-work-not-linear'),
                           '%s touched %d characters / bytes (invocations + signature scans + data slices) on %d bytes of input'
@@ -1166,6 +1212,19 @@ def run(ctx):
                                              'data': struct.pack('<I' if le else '>I', len(vdata)) + vdata})
         if len(R.pending) > 3000:
             R.flush()
+    # many CONSECUTIVE arrays at one level (a splitter that re-splits the rest for every 'a' is exponential in their number)
+    for unit in ('ay', 'as', 'a(y)', 'aay', 'a{yy}', 'av'):
+        for k in (1, 2, 3, 5, 8, 12, 16, 20, 24, 32, 64, 127):
+            sig = (unit * k)[:255 - 255 % len(unit)] if len(unit) * k > 255 else unit * k
+            for data in (b'', b'\0' * 8 * min(k, 40), hostile_data(rng, 64)):
+                R.add('hostile-signatures', {'op': 'u', 'sig': sig, 'le': True, 'off': 0, 'data': data})
+            sb = sig.encode()
+            vdata = bytes([len(sb)]) + sb + b'\0' + b'\0' * 64
+            R.add('hostile-signatures', {'op': 'u', 'sig': 'v', 'le': True, 'off': 0, 'data': vdata})
+            R.add('hostile-signatures', {'op': 'u', 'sig': 'a(yv)', 'le': True, 'off': 0,
+                                         'data': struct.pack('<I', len(vdata) + 1) + b'\0' * 4 + b'\x01' + vdata})
+            R.add('hostile-message-signature', {'op': 'p', 'data': raw_message([f_path, f_member, f_sig_g(sig)], b'\0' * 8 * min(k, 40))})
+    R.flush()
     # zero-size elements with every small non-zero length word (the F1 family), arrays of many elements
     for s in ('a()', 'a{}', 'a(())', 'a(()())', 'aa()', 'a(a())', 'a({})', 'a{()()}'):
         for n in (1, 4, 8, 16, 0xffffffff):
